@@ -1147,6 +1147,11 @@ class PSBTIn:
                 )
             if self.tx_in.prev_index >= len(self.prev_tx.tx_outs):
                 raise ValueError("input refers to an output index that does not exist")
+            if self.prev_out and (
+                self.prev_out.serialize()
+                != self.prev_tx.tx_outs[self.tx_in.prev_index].serialize()
+            ):
+                raise ValueError("witness UTXO does not match the previous transaction")
         if self.prev_out:
             # witness input
             if not (
